@@ -12,7 +12,7 @@ Diagnosed(d) == d.ndiag > 0
 PlainOutput(d) == d.census.jsx = 0 /\ d.reparse.t = "ok"
 WellFormedOrDiagnosed(d) == Diagnosed(d) \/ PlainOutput(d)
 WellFormedWhy(d) ==
-  IF d.term.k = "parse_error" THEN ""                     \* not a module the SWC parser accepts
+  IF d.term.k \in {"parse_error", "skipped"} THEN ""         \* not a module the SWC parser accepts / not run
   ELSE IF d.term.k # "return" THEN "transform:" \o d.term.k
   ELSE IF Diagnosed(d) THEN ""
   ELSE IF d.census.jsx # 0 THEN "jsx-left-in-output:" \o d.census.kinds[1]
@@ -20,7 +20,7 @@ WellFormedWhy(d) ==
   ELSE ""
 
 (* C08: the transform returns, and the result is a function of (source, options) alone *)
-Total(d) == d.term.k \in {"return", "parse_error", "config_error"}
+Total(d) == d.term.k \in {"return", "parse_error", "config_error", "skipped"}     \* skipped: not run (timeout budget), no verdict
 TotalWhy(d) ==
   IF ~Total(d) THEN "transform:" \o d.term.k \o (IF "phase" \in DOMAIN d.term THEN ":" \o d.term.phase ELSE "")
   ELSE IF d.term.k # "return" THEN ""
